@@ -351,6 +351,26 @@ def fold_coverage(action, g):
     if not acc_ok:
         return ('bad', 'the loop does not accumulate: each iteration builds a node that does not contain the previous '
                        'one, so only the last pair survives in `a and b and c`')
+    # exact pairing: iteration k combines operator token 2k+1 with operand token 2k+2, nothing else
+    if isinstance(it, ast.Call) and norm(it.func) == 'range':
+        for n in (3, 5, 7):
+            vals = [_arith(a, {'len(%s)' % tname: n}) for a in it.args]
+            pairs_ = []
+            for i in range(*vals):
+                for c in ast.walk(lp):
+                    if isinstance(c, ast.Call) and norm(c.func) == 'FilterBinary' and len(c.args) == 3:
+                        subs_ = [a for a in c.args if isinstance(a, ast.Subscript) and norm(a.value) == tname]
+                        if len(subs_) == 2:
+                            op_i = _arith(c.args[0].slice, {var: i}) if c.args[0] in subs_ else None
+                            other = [a for a in subs_ if a is not c.args[0]]
+                            od_i = _arith(other[0].slice, {var: i}) if other else None
+                            pairs_.append((op_i, od_i))
+            want = [(k, k + 1) for k in range(1, n - 1, 2)]
+            if pairs_ and pairs_ != want:
+                k = (n + 1) // 2
+                return ('bad', 'with %d operands (tokens 0..%d) the fold combines (operator token, operand token) = %s, '
+                               'expected %s: operands are taken for operators (or the other way round), e.g. in `%s`'
+                        % (k, n - 1, pairs_, want, ' and '.join('abcd'[:k])))
     return ('ok', 'loop over %s covers all operands for 2, 3 and 4 operands' % norm(it))
 
 
@@ -787,6 +807,10 @@ def _repr_exact(ctx, m):
 
 def _literals(ctx, m, g):
     _repr_exact(ctx, m)
+    from . import _zinc
+    _zinc.token_use_rule(ctx, 'C11.D5', MOD)
+    from . import c17
+    c17.zone_applied(ctx, m, 'C11.D5', MOD, '_parse_datetime', 'zinc')
     try:
         hs_val = g.get('hs_val')
     except AnalysisError as e:
@@ -938,6 +962,19 @@ def _row_loop(ctx, m):
     if res is None or fnvar is None:
         ctx.error('C11.D6', 'Grid.filter: result grid / compiled function not found')
         return
+    # every grid built inside filter() (the empty-filter-with-limit path too) carries the source's header
+    for c in ast.walk(fn):
+        if isinstance(c, ast.Call) and norm(c.func) == 'Grid' and c is not res_ctor:
+            kw_ = {k.arg: norm(k.value) for k in c.keywords}
+            if kw_.get('version') in ('%s.version' % s, '%s._version' % s) and kw_.get('metadata') == '%s.metadata' % s \
+                    and kw_.get('columns') == '%s.column' % s:
+                ctx.ob('C11.D6', 'the grid built at line %d carries version, metadata and columns of the source' % c.lineno, True,
+                       '%s:%d' % (FG, c.lineno))
+            else:
+                missing = [k for k in ('version', 'metadata', 'columns') if k not in kw_]
+                V(norm(c), "grid.filter('', limit=2) on a 3.0 grid: the result is built as `%s` and loses %s of the source"
+                  % (norm(c)[:80], ', '.join(missing) or 'header fields'),
+                  'a result grid of filter() is built without %s' % (', '.join(missing) or 'the source header'), c.lineno)
     rn = norm(res.targets[0])
     kw = {k.arg: norm(k.value) for k in res_ctor.keywords}
     if kw.get('version') in ('%s.version' % s, '%s._version' % s) and kw.get('metadata') == '%s.metadata' % s \
